@@ -276,6 +276,7 @@ func orDash(s string) string {
 // c18Observers: read requests issued after every step on both sides.
 func c18Observers(st map[string]string) []*gw.Req {
 	return []*gw.Req{
+		NewReq("GET", "/", "", nil, nil),
 		NewReq("HEAD", "/"+c18B, "", nil, nil),
 		NewReq("GET", gw.ObjPath(c18B, "k1"), "", nil, nil),
 		NewReq("HEAD", gw.ObjPath(c18B, "k1"), "", nil, nil),
@@ -394,6 +395,14 @@ func maskTag(s, name string) string {
 func c18Run(do func(r *gw.Req) *gw.Resp, ops []c18Op, prog []int, cred gw.Creds) []string {
 	st := map[string]string{}
 	var out []string
+	if cred.Access != gw.RootAccess {
+		// another account's bucket exists beside the caller's: the caller's ListBuckets must not show it
+		fb := NewReq("PUT", "/pxforeign", "", nil, nil)
+		gw.Sign(fb, gw.Root, gw.SignOpts{})
+		if resp := do(fb); !resp.OK() {
+			ck.Fatal("c18: foreign bucket: %s", resp)
+		}
+	}
 	for _, oi := range prog {
 		op := ops[oi]
 		req := op.Req(st)
@@ -430,7 +439,7 @@ func C18(r *ck.Run) {
 	if r.Thorough() {
 		depth = 3
 	}
-	r.Rule(fmt.Sprintf("every program of length <= %d over 31 (35 thorough) bucket, object, tagging, policy, listing and multipart operations (four of them signed with a wrong secret, one with a checksum that is not the body's, one completion that states object size 0) is executed twice from an empty store: through a gateway whose backend is s3proxy pointed at an endpoint process (a posix versitygw on loopback TCP), and against that endpoint directly; after every step 28 read requests (GET whole / ranges, HEAD, attributes, tagging, listings v1/v2 with prefix / delimiter / max-keys, uploads, parts, bucket tagging / policy / ACL / versioning) are issued on both sides and every response (status, error code, content headers, user metadata, ETag, body with timestamps and ids masked) must be equal; callers: root and a userplus account that owns the bucket; distinct = (caller, program)", depth))
+	r.Rule(fmt.Sprintf("every program of length <= %d over 31 (35 thorough) bucket, object, tagging, policy, listing and multipart operations (four of them signed with a wrong secret, one with a checksum that is not the body's, one completion that states object size 0) is executed twice from an empty store: through a gateway whose backend is s3proxy pointed at an endpoint process (a posix versitygw on loopback TCP), and against that endpoint directly; after every step 29 read requests (ListBuckets, GET whole / ranges, HEAD, attributes, tagging, listings v1/v2 with prefix / delimiter / max-keys, uploads, parts, bucket tagging / policy / ACL / versioning) are issued on both sides and every response (status, error code, content headers, user metadata, ETag, body with timestamps and ids masked) must be equal; callers: root and a userplus account that owns the bucket; distinct = (caller, program)", depth))
 	r.Assume("the 'other S3 endpoint' is versitygw itself (posix backend) in a child process; error documents are compared by status and code only")
 	ops := c18Ops(r.Thorough())
 	var progs [][]int
